@@ -342,13 +342,13 @@ def gen_cases(rng, tier):
                 for tg in "EIA":
                     extra.append(("pm:%s:two:%s:%s:%s" % (tk, lab, order, tg), build(tg, tk, "two", a1, a2, order)))
     extra = rng.shuffle(extra)
-    room = 260 if tier == "quick" else 6000
+    room = 300 if tier == "quick" else 6000
     # round-robin over (shape/site, relation) so that a small budget still meets every relation
     by = {}
     for lab, pm in extra:
         p = lab.split(":")
         by.setdefault((p[2], p[4] if p[2] != "two" else p[3]), []).append((lab, pm))
-    keys = sorted(by)
+    keys = rng.shuffle(sorted(by))
     i = 0
     while room > 0 and any(by.values()):
         kx = keys[i % len(keys)]
